@@ -556,7 +556,7 @@ def c16(rep, tier, seed, wd):
     rng = random.Random(seed)
     cfgs = ["bodies2", "tails4"] if tier == "quick" else ["bodies", "tails5"]
     cases, st, tr = enum_cases(cfgs, wd)
-    cases = [c for c in cases if c["h"] == 1 and c["defect"] == "none"]       # requests
+    cases = [c for c in cases if c["h"] in (1, 14) and c["defect"] == "none"]       # requests
     gm = [g for g in gen_messages(600 if tier == "quick" else 5000, seed + 3, wd, maxattrs=5) if g["gen"]["class"] == "request"]
     gcs = [{"bytes": g["bytes"], "src": "generated request %d" % g["id"], "types": [a["d"]["t"] for a in g["gen"]["attrs"]]} for g in gm]
     for c in cases:
